@@ -71,30 +71,55 @@ def box(idx, shape):
 
 def path_obligations(prefix, results, post, instance=None, fn_record=None, expect_raise=None):
     """turn explored paths into obligations.
-    post(path_result) -> list of (name, extra_hyps, goal) built inside the path's context."""
+    post(path_result) -> list of (name, extra_hyps, goal) built inside the path's context.
+    If post has to take a decision that the path condition leaves open (lazily evaluated array elements do), the path is
+    re-run from its decision prefix with post INSIDE the exploration, so every branch gets its own obligations."""
     obs, covers = [], []
-    for i, r in enumerate(results):
-        pname = "%s/p%d" % (prefix, i)
-        meta = dict(instance=instance, path=i)
+
+    def run_post(r):
+        """inside r.ctx: returns (items, facts, error)"""
+        items, facts = [], []
+        try:
+            for (name, extra, goal) in post(r):
+                if name == "@fact":      # an instance of a precondition of the contract (e.g. P is PSD at this vector)
+                    facts.append(goal)
+                    continue
+                items.append((name, list(extra), goal, list(facts)))
+        except core.ForkInPost:
+            raise
+        except core.Unsupported as e:
+            return items, facts, str(e)
+        return items, facts, None
+
+    def emit(r, pname, path_idx, res):
+        items, facts, err = res
+        meta = dict(instance=instance, path=path_idx)
         if fn_record:
             meta.update(function=fn_record["function"], file=fn_record["file"], lines=fn_record["lines"], sha256=fn_record["sha256"])
-        facts = []
-        n_side_run = len(r.ctx.side)          # definedness obligations of the CODE; the spec side's own are not the code's
-        with within(r.ctx):
-            try:
-                for (name, extra, goal) in post(r):
-                    if name == "@fact":      # an instance of a precondition of the contract (e.g. P is PSD at this vector)
-                        facts.append(goal)
-                        continue
-                    # hyps are read after post() ran, so definitional constraints it introduced are included
-                    obs.append(Obligation("%s/%s" % (pname, name), r.ctx.hyps() + list(extra) + facts, goal, dict(meta, goal=name)))
-            except core.Unsupported as e:
-                # keep the side obligations generated so far; the path itself stays undecided (engine limit)
-                covers.append(dict(name="%s/engine-limit" % pname, status="engine-error", backend="-", time_s=0.0, model=None,
-                                   meta=dict(meta, error=str(e))))
+        hy = r.ctx.hyps()          # read after post() ran, so definitional constraints it introduced are included
+        for (name, extra, goal, fs) in items:
+            obs.append(Obligation("%s/%s" % (pname, name), hy + list(extra) + fs, goal, dict(meta, goal=name)))
+        if err is not None:
+            # keep the side obligations generated so far; the path itself stays undecided (engine limit)
+            covers.append(dict(name="%s/engine-limit" % pname, status="engine-error", backend="-", time_s=0.0, model=None, meta=dict(meta, error=err)))
         for j, (sname, hyps, goal) in enumerate(r.ctx.side):
             obs.append(Obligation("%s/%s#%d" % (pname, sname, j), list(hyps) + facts, goal, dict(meta, kind="side")))
-        covers.append(cover(pname, r.ctx.hyps() + facts))
+        covers.append(cover(pname, hy + facts))
+
+    for i, r in enumerate(results):
+        pname = "%s/p%d" % (prefix, i)
+        n_dec = len(r.decisions)
+        try:
+            with within(r.ctx):
+                res = run_post(r)
+            emit(r, pname, i, res)
+        except core.ForkInPost:
+            fn = getattr(r, "fn", None)
+            if fn is None:
+                raise
+            subs = core.explore(fn, max_paths=128, prefixes=[r.decisions[:n_dec]], post=run_post)
+            for j, r2 in enumerate(subs):
+                emit(r2, "%s.%d" % (pname, j), i, r2.post_value)
     return obs, covers
 
 
